@@ -80,6 +80,7 @@ type alphSim struct {
 	nCount    int
 	onCount   map[int]func() // run (under the lock) right after the k-th current-count request was answered
 	faults    map[string]int
+	countAhead int // this many of the next current-count answers report two events more than the node can page out (their block was replaced in between)
 	drain     func(n int) // called under the lock before every request is answered: n = requests answered so far
 }
 
@@ -168,6 +169,10 @@ func (s *alphSim) RoundTrip(r *http.Request) (*http.Response, error) {
 		n := 0
 		if addr == s.govAddr {
 			n = len(s.govEvents)
+			if s.countAhead > 0 {
+				s.countAhead--
+				n += 2
+			}
 		}
 		resp := s.answer("count", addr, 200, n, line)
 		s.nCount++
